@@ -172,8 +172,10 @@ def build(tier="quick", seed=0):
                 ev = events()
                 if [e[0] for e in ev] != ["DESC", "REC"] or ev[0][1] != ident(A) or ev[0][2] != (("varint", "n"),) or ev[1][1] != [ident(A)]:
                     return f"a record of a type that is not in the registry must be preceded by its definition: {ev!r}"
-                if it.getitem(reg, ident(A)) is not A:
-                    return "the registry does not map the identifier to the record's descriptor afterwards"
+                it.call(it.getattr_(w, "write"), [a], {})  # the type is known from now on (observed through behaviour, not through the registry's representation)
+                ev = events()
+                if [e[0] for e in ev] not in (["DESC", "REC", "REC"], ["DESC", "REC", "DESC", "REC"]) or not well_ordered(ev, []) is None:
+                    return f"after the definition was emitted: {ev!r}"
                 return None
             if kind == "known type":
                 reg = arb_registry(present=[(ident(A), A)], default=A2)
@@ -228,6 +230,26 @@ def build(tier="quick", seed=0):
                 it.call(it.getattr_(w, "write"), [g1], {})
                 it.call(it.getattr_(w, "write"), [g2], {})
                 return well_ordered(events(), [])
+            if kind == "same hash text, other name":
+                # two types with DIFFERENT names whose name ++ field name ++ type text is the same ("c03/log" + "inuser" / "c03/login" + "user"): their
+                # identifiers differ (the name is part of the identifier), so each needs its own definition and is decoded with its own descriptor
+                X = it.call(RD, ["c03/log", [("string", "inuser")]], {})
+                Y = it.call(RD, ["c03/login", [("string", "user")]], {})
+                fp, w, events = mk(None)
+                for r in (it.call(X, [], {"inuser": "1"}), it.call(Y, [], {"user": "2"}), it.call(X, [], {"inuser": "3"}), it.call(N, [], {"r": it.call(Y, [], {"user": "4"}), "rs": [it.call(X, [], {"inuser": "5"})]})):
+                    it.call(it.getattr_(w, "write"), [r], {})
+                ev = events()
+                bad = well_ordered(ev, [])
+                if bad:
+                    return bad
+                if fmt == "stream":
+                    rdr = it.call(st.g["RecordStreamReader"], [AbsFile(it, fp.content())], {})
+                else:
+                    rdr = it.call(jf.g["JsonfileReader"], [AbsFile(it, fp.content(), mode="r")], {})
+                out = list(it.iterate(rdr))
+                got = [(it.getattr_(it.getattr_(o, "_desc"), "name"), [tuple(f) for f in it.call(it.getattr_(it.getattr_(o, "_desc"), "get_field_tuples"), [], {})]) for o in out[:3]]
+                want = [("c03/log", [("string", "inuser")]), ("c03/login", [("string", "user")]), ("c03/log", [("string", "inuser")])]
+                return None if got == want else f"records read back with descriptors {got}, written with {want}"
             if kind == "two writers":
                 fp1, w1, ev1 = mk(None)
                 fp2, w2, ev2 = mk(None)
@@ -256,7 +278,7 @@ def build(tier="quick", seed=0):
             raise KeyError(kind)
         return th
 
-    KINDS = ["new type", "known type", "same name registered", "nested, nothing known", "nested, holder known", "nested, inner known", "grouped, nothing known", "grouped, one member known", "grouped, same names registered", "grouped twice, other members", "two writers", "frame"]
+    KINDS = ["new type", "known type", "same name registered", "nested, nothing known", "nested, holder known", "nested, inner known", "grouped, nothing known", "grouped, one member known", "grouped, same names registered", "grouped twice, other members", "same hash text, other name", "two writers", "frame"]
     for fmt in ("stream", "json"):
         for kind in KINDS:
             if fmt == "json" and kind.startswith("grouped"):
